@@ -37,13 +37,19 @@ Definition end_effect (has_end : bool) (op : dop) (gone : bool) : nat * bool * o
          is created there (and the resolver's own, if any, is dropped with the resolver) *)
       if end_moved_from_resolver then (O, has_end, None)
       else ((if has_end then 1 else 0)%nat, true, None)
-  | DHeadersFail _ KMalformed =>
-      (* the RequestStream exists when the header fields turn out to be malformed; it is dropped *)
+  | DHeadersFail _ KMalformed | DHeadersFail _ KTooBig =>
+      (* the RequestStream exists when the header fields turn out to be malformed / too large (the 431
+         response is sent on it); it is dropped when resolve() returns the error *)
       if end_moved_from_resolver then ((if has_end then 1 else 0)%nat, false, None)
       else ((if has_end then 2 else 1)%nat, false, None)
   | DHeadersFail _ k =>
       ((if has_end then 1 else 0)%nat, false,
-       match k with KBadQpack => Some headers_qpack_code | KUnexpected => Some headers_unexpected_code | _ => None end)
+       match k with
+       | KBadQpack => Some headers_qpack_code
+       | KUnexpected => Some headers_unexpected_code
+       | KTruncFin => Some headers_truncated_code
+       | _ => None
+       end)
   | _ => ((if gone && has_end then 1 else 0)%nat, has_end, None)
   end.
 
